@@ -131,7 +131,10 @@ class SimUdpTransport(_BaseTransport, asyncio.DatagramTransport):
         rec["t_run"] = self._net.world.clock.now
         self._net.world.log("deliver", self.tid, kind, payload.hex() if isinstance(payload, bytes) else payload)
         if kind == "data":
-            self._protocol.datagram_received(payload, self.remote)
+            addr = self.remote
+            if ":" in str(addr[0]):
+                addr = (addr[0], addr[1], 0, 0)   # asyncio reports an IPv6 sender as (host, port, flowinfo, scope_id)
+            self._protocol.datagram_received(payload, addr)
         elif kind == "icmp":
             self._protocol.error_received(oserror(payload))
         else:
